@@ -79,6 +79,50 @@ def run_translator():
     return rc == 0, out.strip()
 
 
+def coq_closure(pid):
+    """Source files (relative to coq/) that props/<pid>.v depends on, transitively, by their Require lines."""
+    seen, todo = set(), ["props/%s.v" % pid]
+    index = {}
+    for rel in coq_sources():
+        index[os.path.basename(rel)[:-2]] = rel
+    while todo:
+        rel = todo.pop()
+        if rel in seen or not os.path.exists(os.path.join(COQ, rel)):
+            continue
+        seen.add(rel)
+        src = re.sub(r"\(\*.*?\*\)", "", open(os.path.join(COQ, rel)).read(), flags=re.S)
+        for m in re.finditer(r"(?:From\s+Aqua\s+)?Require\s+(?:Import\s+|Export\s+)?([^.]*)\.", src):
+            for name in m.group(1).split():
+                name = name.split(".")[-1]
+                if name in index:
+                    todo.append(index[name])
+    return sorted(seen)
+
+
+def failed_sections_for(pid):
+    """Translator sections that failed in the last run and whose definitions the property's Coq files mention."""
+    st = os.path.join(CACHE, "translator_status.json")
+    try:
+        failed = json.load(open(st)).get("failed_sections", [])
+    except (OSError, ValueError):
+        return []
+    if not failed:
+        return []
+    text = ""
+    for rel in coq_closure(pid):
+        if not rel.startswith("gen/"):
+            text += open(os.path.join(COQ, rel)).read() + "\n"
+    hits = []
+    for f in failed:
+        if isinstance(f, list):
+            f = {"section": f[0], "why": f[1], "defines": []}
+        names = f.get("defines") or []
+        used = [n for n in names if re.search(r"\b%s\b" % re.escape(n), text)]
+        if used or not names:
+            hits.append((f["section"], f["why"], used))
+    return hits
+
+
 def coq_sources():
     fs = []
     for d in ("gen", "model", "proofs", "props"):
